@@ -263,7 +263,7 @@ func Universe(quick bool) []Case {
 
 func Main(r *core.Run) {
 	cases := Universe(r.Quick())
-	r.Rule("every in-domain tree ≤4/≤6 nodes over 13 leaves; every alphabet scalar (full float, string, bytes, link alphabets) at every position kind incl. as map key; reserved-shape near misses; every permutation of key sets ≤4/≤5 (comparator keys) and ≤3/≤4 (JSON-hostile keys: \"/\", \"bytes\", quote, backslash, U+2028, control, non-BMP); permuted map nested in permuted map; × {basicnode Any, basicnode kind prototypes, foreign refnode}. Non-trivial = contains a float, bytes, link, a map with ≥2 entries or a string needing escapes; distinct by (value with order, impl).")
+	r.Rule("every in-domain tree ≤4/≤6 nodes over 13 leaves; every alphabet scalar (full float, string, bytes, link alphabets) at every position kind incl. as map key; reserved-shape near misses; every permutation of key sets ≤4/≤5 (comparator keys) and ≤3/≤4 (JSON-hostile keys: \"/\", \"bytes\", quote, backslash, U+2028, control, non-BMP); permuted map nested in permuted map; × {basicnode Any, basicnode kind prototypes, foreign refnode}; histories of two encodes on one goroutine (the first meets a failing or short writer at its k-th write, or a node that gives up): the second equals its output alone. Non-trivial = contains a float, bytes, link, a map with ≥2 entries or a string needing escapes; distinct by (value with order, impl).")
 	r.Assume("reference reader mc/ref/refjson.go over encoding/json's tokenizer; cid.Decode and base64 from the standard/ CID libraries")
 	core.ParallelFor(len(cases), func(i int) {
 		c := cases[i]
@@ -278,6 +278,7 @@ func Main(r *core.Run) {
 		}
 		r.Report("value", c, fs)
 	})
+	histories(r)
 	r.Sample(map[string]any{"value": cases[len(cases)/2].V.String(), "impl": cases[len(cases)/2].Impl})
 	r.Sample(map[string]any{"value": nearMisses()[3].String(), "what": "reserved-shape near miss: two entries, first is \"/\": string"})
 	r.Set("cases", len(cases))
@@ -312,6 +313,11 @@ func nontrivial(v ref.Val) bool {
 }
 
 func Replay(r *core.Run, raw json.RawMessage) {
+	var hc HCase
+	if json.Unmarshal(raw, &hc) == nil && hc.Fault != "" {
+		r.Report("history", hc, CheckHistory(hc))
+		return
+	}
 	var c Case
 	if err := json.Unmarshal(raw, &c); err != nil {
 		panic(err)
